@@ -56,6 +56,10 @@ def make_scenario(case):
     for k, commit in cached.items():
         i = int(k)
         ts = CACHE_TS + i
+        if case.get("two_versions"):
+            # an older version recorded at the same commit: ties are broken towards the newest
+            rows.append([ids[i], ts - 500, commit, 0])
+            pre_tree[os.path.join("cond-out", pkgs[i], "t%d.task.%d" % (i, ts - 500), "older")] = "older\n"
         rows.append([ids[i], ts, commit, 0])
         pre_tree[os.path.join("cond-out", pkgs[i], "t%d.task.%d" % (i, ts), "old")] = "cached\n"
     argv = ["run", ids[0]]
@@ -75,7 +79,7 @@ def make_scenario(case):
     if case.get("git"):
         # two commits c1 <- c2 (HEAD)
         scn["git"] = {"commits": {"c1" * 20: [], "c2" * 20: ["c1" * 20]}, "head": "c2" * 20, "is_repo": True,
-                      "dirty": bool(case.get("dirty"))}
+                      "dirty": bool(case.get("dirty")), "refs": {"tag-c1": "c1" * 20, "tag-c2": "c2" * 20, "main": "c2" * 20}}
     return scn
 
 
@@ -182,7 +186,8 @@ def effective_cached(case):
     for k, commit in cached.items():
         if case.get("at_least"):
             # re-run iff no commit or strict ancestor of the requested commit (c1 < c2)
-            if commit is None or (commit != case["at_least"] and commit == "c1" * 20):
+            target = {"tag-c1": "c1" * 20, "tag-c2": "c2" * 20, "main": "c2" * 20, "HEAD": "c2" * 20}.get(case["at_least"], case["at_least"])
+            if commit is None or (commit != target and commit == "c1" * 20):
                 continue
         out.add(int(k))
     return out
